@@ -7,7 +7,8 @@
 From Coq Require Import ZArith Bool.
 Open Scope Z_scope.
 
-Definition wrap (w z : Z) : Z := z mod 2 ^ w.
+(* z mod 2^w, computed as z & (2^w - 1) (Lib/WordLemmas.v: wrap_mod) *)
+Definition wrap (w z : Z) : Z := Z.land z (Z.ones w).
 Definition maxu (w : Z) : Z := 2 ^ w - 1.                 (* math.MaxUintW / ^uintW(0) *)
 Definition inrange (w z : Z) : Prop := 0 <= z < 2 ^ w.
 Definition inrangeb (w z : Z) : bool := (0 <=? z) && (z <? 2 ^ w).
